@@ -160,7 +160,74 @@ def deferred_scripts(ctx, rng):
         raise vcheck.Infra("a pin() whose same-options branch does not submit LogPin no longer violates FlushOK in the "
                            "model: the deferred model lost its sensitivity")
     ctx.extra["deferred_histories_emitted"] = len(hs)
+    ctx.c04_emitted = hs
     return [{"src": "deferred", "env": h["env"], "pre": h["pre"], "steps": h["steps"]} for h in keep]
+
+
+def label(c):
+    if c["op"] == "pin":
+        if c["o"]["upd"]:
+            return "X"                                  # pin c3 updating from c1
+        return {"c1": "A" if c["o"]["name"] == "n1" else "B", "c3": "P3"}.get(c["cid"], "?")
+    if c["op"] == "unpin":
+        return {"c1": "U", "m1": "UM"}.get(c["cid"], "?")
+    if c["op"] == "update":
+        return "UD" if c["to"] == "c1" else "U13"
+    return "F" if c["op"] == "flush" else "?"
+
+
+WANT_NOW = {0: ["A U P3", "A P3", "A A B", "A UD U", "A U13 U", "A X P3"], 1: ["U A P3", "A B U"]}
+WANT_BATCH = {1: ["U A", "U B", "U A U", "A U A"], 0: ["A U A", "A U P3"]}
+
+
+def real_scripts(ctx, rng):
+    """A small set of the histories TLC emitted (ClusterAPIDeferMC), for the real consensus backends: pin with all
+    options; unpin; plain pin of another CID; identical re-pin; changed re-pin; pin-update."""
+    hs = ctx.c04_emitted
+    by = {}
+    for h in hs:
+        sig = " ".join(label(c) for c in h["steps"] if c["op"] != "flush")
+        by.setdefault((1 if len(h["pre"]) > 1 else 0, sig), h)
+    out = []
+
+    def calls(h):
+        return [c for c in h["steps"] if c["op"] != "flush"]
+
+    def pre(h):     # the real backends get data pins only (sharded content needs the block service of the fake IPFS)
+        # and no origins: a pin with origins does not survive raft's msgpack log entry (listed under C08)
+        return [dict(e, orig=[]) for e in h["pre"] if e["type"] == "data"]
+    extra = rng.sample(hs, 4 if ctx.quick() else 80)
+    for backend in ("raft", "crdt"):
+        for init, sigs in WANT_NOW.items():
+            for sig in sigs:
+                h = by.get((init, sig))
+                if h is None:
+                    raise vcheck.Infra("TLC did not emit the history %r" % sig)
+                out.append({"src": "real:" + backend, "backend": backend, "env": dict(h["env"], deferred=False),
+                            "pre": pre(h), "steps": calls(h)})
+        for h in extra:
+            if any(label(c) == "UM" for c in h["steps"]):
+                continue
+            out.append({"src": "real:" + backend, "backend": backend, "env": dict(h["env"], deferred=False),
+                        "pre": pre(h), "steps": calls(h)})
+    for init, sigs in WANT_BATCH.items():
+        for sig in sigs:
+            h = by.get((init, sig))
+            if h is None:
+                raise vcheck.Infra("TLC did not emit the history %r" % sig)
+            cs = calls(h)
+            every = []
+            for c in cs:
+                every += [c, {"op": "flush"}]
+            out.append({"src": "real:crdt-batch", "backend": "crdt-batch", "env": h["env"], "pre": pre(h), "steps": cs})
+            out.append({"src": "real:crdt-batch", "backend": "crdt-batch", "env": h["env"], "pre": pre(h), "steps": every[:-1]})
+    for h in extra:
+        if any(label(c) == "UM" for c in h["steps"]):
+            continue
+        out.append({"src": "real:crdt-batch", "backend": "crdt-batch", "env": h["env"], "pre": pre(h), "steps": h["steps"]})
+    for i, s in enumerate(out):
+        s["id"] = 100000 + i
+    return out
 
 
 def witness_script(out):
@@ -321,6 +388,19 @@ def run(ctx):
         ctx.exhaustive = True
     scripts = generate(ctx)
     execute(ctx, scripts)
+    # real consensus backends (raft; crdt without and with batching)
+    rs = real_scripts(ctx, random.Random(ctx.seed + 7))
+    inp = os.path.join(ctx.work, "c04_real_scripts.ndjson")
+    with open(inp, "w") as f:
+        for s in rs:
+            f.write(json.dumps(s) + "\n")
+    ctx.log("real backends: replaying %d histories" % len(rs))
+    trace = os.path.join(ctx.work, "c04_real_io.ndjson")
+    # a crash of the real consensus component while it serves these histories (e.g. go-ds-crdt given an empty batch
+    # to commit) is behaviour of the code under test: reported, and what was recorded before it is still judged
+    ctx.go_test("c04_api", run="TestReal", infile=inp, env={"VERIF_TRACE": trace}, timeout=3000, panic_is_violation=True)
+    if os.path.exists(trace) and os.path.getsize(trace) > 0:
+        validate(ctx, trace, rs, transcription=False)
 
 
 def execute(ctx, scripts):
@@ -334,7 +414,7 @@ def execute(ctx, scripts):
     validate(ctx, trace, scripts)
 
 
-def validate(ctx, trace, scripts):
+def validate(ctx, trace, scripts, transcription=True):
     verdict = os.path.join(ctx.work, "c04_verdict.ndjson")
     r = tla.run_tlc(ctx.specdir(), "ClusterAPITrace.tla", "ClusterAPITrace.cfg", workers=1, timeout=3000,
                     heap="8g", env_extra={"TRACE_FILE": trace, "VERDICT_FILE": verdict})
@@ -347,14 +427,19 @@ def validate(ctx, trace, scripts):
     if v["n"] != len(recs):
         raise vcheck.Infra("verdict covers %d of %d records" % (v["n"], len(recs)))
     bad = set(v["bad"])
-    drift = set(v["drift"]) - bad
+    drift = (set(v["drift"]) - bad) if transcription else set()   # real backends: the consensus log is not observable
     byid = dict((s["id"], s) for s in scripts)
     # a history counts as validated when every one of its steps satisfies property and transcription
     failed_hist = set(recs[i - 1]["id"] for i in bad | drift)
     ctx.traces_validated += len(set(x["id"] for x in recs) - failed_hist)
-    ctx.extra["tuples_checked_by_tlc"] = v["n"]
-    ctx.extra["transcription_drift"] = len(drift)
-    ctx.extra["refusals_observed"] = sum(1 for x in recs if not x["obs"]["ok"])
+    if transcription:
+        ctx.extra["tuples_checked_by_tlc"] = v["n"]
+        ctx.extra["transcription_drift"] = len(drift)
+        ctx.extra["refusals_observed"] = sum(1 for x in recs if not x["obs"]["ok"])
+    else:
+        ctx.extra["real_backend_tuples_checked_by_tlc"] = v["n"]
+        ctx.extra["real_backend_steps"] = dict((b, sum(1 for x in recs if x["src"] == "real:" + b))
+                                               for b in ("raft", "crdt", "crdt-batch"))
     for i in sorted(bad):
         rec = recs[i - 1]
         what = ("pinset after %s does not match what the statement requires (ok=%s err=%s)"
@@ -376,5 +461,14 @@ def replay(ctx, path):
     if not s:
         raise vcheck.Infra("replay file has no script")
     ctx.rule = "replay of one stored history"
+    if s.get("backend"):
+        inp = os.path.join(ctx.work, "c04_real_scripts.ndjson")
+        open(inp, "w").write(json.dumps(s) + "\n")
+        trace = os.path.join(ctx.work, "c04_real_io.ndjson")
+        ctx.go_test("c04_api", run="TestReal", infile=inp, env={"VERIF_TRACE": trace}, timeout=3000, panic_is_violation=True)
+        if os.path.exists(trace) and os.path.getsize(trace) > 0:
+            validate(ctx, trace, [s], transcription=False)
+        ctx.samples = ctx.samples or [s]
+        return
     execute(ctx, [s])
     ctx.samples = ctx.samples or [s]
